@@ -45,7 +45,18 @@ func WithPresets(presets ...Preset) resource.Option {
 func calcModelArgs(opts ...resource.Option) modelArgs {
 	args := new(modelArgs)
 	args.apply(DefaultModelOptions...)
+	nDefault := len(args.fanSpeedOpts)
 	args.apply(opts...)
+	if len(args.presets) > 0 {
+		// the model starts on the first of ITS presets (an initial fan speed given by the caller comes later and wins)
+		first := resource.WithInitialValue(&traits.FanSpeed{
+			Percentage: args.presets[0].Percentage,
+			Preset:     args.presets[0].Name,
+			Direction:  traits.FanSpeed_FORWARD,
+		})
+		callerOpts := append([]resource.Option{first}, args.fanSpeedOpts[nDefault:]...)
+		args.fanSpeedOpts = append(args.fanSpeedOpts[:nDefault:nDefault], callerOpts...)
+	}
 	return *args
 }
 
